@@ -1117,10 +1117,46 @@ def sub(a, b):
     return _lin_comb(w, [(a, 1), (b, -1)])
 
 
+def _carry_free_mul(x, c, w):
+    """x has single symbolic bits b_i at positions p_i and zeros elsewhere: x = sum b_i 2^p_i, so
+    x*c = sum_i b_i * (c << p_i).  If no two partial products share a bit position there are no carries and
+    bit q of the product is the b_i whose partial product owns q (the bit-gather / bit-spread multiply idiom)."""
+    bits = []
+    pos = 0
+    for p in x:
+        n = pw(p)
+        if p[0] == 'c':
+            if p[2] != 0:
+                return None
+        elif p[0] == 's' and n == 1:
+            bits.append((pos, p))
+        else:
+            return None
+        pos += n
+    if not bits or len(bits) > 64 or bin(c).count('1') > 64:
+        return None
+    owner = {}
+    cb = [k for k in range(w) if (c >> k) & 1]
+    for (p_i, piece) in bits:
+        for k in cb:
+            q = p_i + k
+            if q >= w:
+                continue
+            if q in owner:
+                return None
+            owner[q] = piece
+    return norm([owner.get(q, ('c', 1, 0)) for q in range(w)])
+
+
 def mul(a, b):
     w = width(a)
     assert width(b) == w
     a, b = canon(a), canon(b)
+    for (x, c) in ((a, b), (b, a)):
+        if is_const(c) and not is_const(x):
+            r = _carry_free_mul(x, const_val(c), w)
+            if r is not None:
+                return r
     if is_const(a):
         return _lin_comb(w, [(b, const_val(a))])
     if is_const(b):
